@@ -6,14 +6,40 @@ Definition model (i : input) : obs :=
   let c := run (threads i) (sched i) in
   {| o_log := glog c;
      o_sem_free := match sem c with None => true | Some _ => false end;
-     o_deadlock := negb (all_finished c) |}.
+     o_deadlock := negb (all_finished c);
+     o_wf := wf_flags (threads i) |}.
 
 Definition ev_eqb : tid * gev -> tid * gev -> bool := pair_eqb Nat.eqb gev_eqb.
 
-Definition obs_eqb (a b : obs) : bool :=
-  list_eqb ev_eqb (o_log a) (o_log b)
-  && Bool.eqb (o_sem_free a) (o_sem_free b)
-  && Bool.eqb (o_deadlock a) (o_deadlock b).
+(* What is compared with the model.  The statement fixes the exact log of a thread only where that thread
+   reports well-formed tests; for any other use (an outcome without startTest, startTestRun in the middle of
+   the thread's own test, ...) it demands mutual exclusion, the section structure, release and no deadlock -
+   which spec_okb judges on the implementation's observation itself - and leaves the contents, length and
+   number of that thread's blocks open.  So: the global log (whose interleaving, under the deterministic
+   scheduler, depends on how many operations every thread performs) is compared only when EVERY thread is
+   well-formed; otherwise only the own parts of the well-formed threads (independent of the schedule). *)
+Record aobs := { a_log : list (tid * gev); a_threads : list (list gev); a_sem_free : bool; a_deadlock : bool;
+                 a_wf : list bool }.
+
+Fixpoint own_logs (log : list (tid * gev)) (t : nat) (wf : list bool) : list (list gev) :=
+  match wf with
+  | [] => []
+  | b :: r => (if b then proj t log else []) :: own_logs log (S t) r
+  end.
+
+Definition alpha (o : obs) : aobs :=
+  {| a_log := if forallb (fun b => b) (o_wf o) then o_log o else [];
+     a_threads := own_logs (o_log o) 0 (o_wf o);
+     a_sem_free := o_sem_free o; a_deadlock := o_deadlock o; a_wf := o_wf o |}.
+
+Definition aobs_eqb (a b : aobs) : bool :=
+  list_eqb ev_eqb (a_log a) (a_log b)
+  && list_eqb (list_eqb gev_eqb) (a_threads a) (a_threads b)
+  && Bool.eqb (a_sem_free a) (a_sem_free b)
+  && Bool.eqb (a_deadlock a) (a_deadlock b)
+  && list_eqb Bool.eqb (a_wf a) (a_wf b).
+
+Definition obs_eqb (a b : obs) : bool := aobs_eqb (alpha a) (alpha b).
 
 Definition report := @report input obs model obs_eqb spec_okb findings.
 Definition model_at := @model_at input obs model spec_okb.
